@@ -91,9 +91,9 @@ theorem normalizeAttribute_entity (T : Tables) (txt : Bytes) (c c' : Ctx) (value
       have hpc : (Props.C05.pushLit (Props.C05.pushLit (Props.C05.pushLit {} p) e.value.bytes) q).pendingCr
           = false := by
         rw [pushLit_pending, pushLit_pending, pushLit_pending]
-      have hc : content (Props.C05.pushLit (Props.C05.pushLit (Props.C05.pushLit {} p) e.value.bytes) q) =
+      have hc : Props.C04.content (Props.C05.pushLit (Props.C05.pushLit (Props.C05.pushLit {} p) e.value.bytes) q) =
           Props.C05.out (Props.C05.pushLit (Props.C05.pushLit (Props.C05.pushLit {} p) e.value.bytes) q) := by
-        simp [content, TextBuffer.resolvePendingCr, hpc, Props.C05.out]
+        simp [Props.C04.content, TextBuffer.resolvePendingCr, hpc, Props.C05.out]
       rw [hc, Props.C05.pushLit_spec, Props.C05.pushLit_spec, Props.C05.pushLit_spec] at ho
       subst ho
       simp [Props.C05.out]
